@@ -10,103 +10,109 @@ use hcobs::Chunk;
 use hcobs::StreamChunker;
 use owning_iovec::ByteArena;
 
-fn tiling<const S: usize>(block: usize, sched: bool, prefill: usize, witness: bool) {
+/// One inductive step: `pump` from an ARBITRARY chunker state.
+///
+/// State invariant I(chunker, reader, logical stream): the carry-over buffer
+/// holds the next |buf| <= max(block, 2) bytes of the logical stream after
+/// the bytes already emitted (`offset`), and the reader is positioned right
+/// after them.  Index 0 of `stream` is the first not-yet-emitted byte; the
+/// emitted-byte count `base` is an arbitrary u64.  The default chunker with a
+/// fresh reader satisfies I (buf empty, base 0), and the step shows that I is
+/// preserved and that the returned chunk obeys every clause of the property,
+/// so every pump sequence tiles the stream (for carry-over buffers and
+/// remaining streams within the bound).
+fn step<const S: usize>(block: usize, witness: bool) {
+    let m = if block < 2 { 2 } else { block };
     let stream: [u8; S] = kani::any();
     let len: usize = kani::any();
-    kani::assume(len <= S);
-    let data = &stream[..len];
-    let mut reader = if sched { SchedReader::any(data) } else { SchedReader::full(data) };
+    let bl: usize = kani::any();
+    let base: u64 = kani::any();
+    kani::assume(len <= S && bl <= len && bl <= m);
+    kani::assume(base <= 1 << 48);
+
     let mut arena = ByteArena::new();
-    if prefill > 0 {
-        // arena state: a chunk with (8 - prefill) bytes left
-        let filler = [0x55u8; 8];
-        match arena.read_n(&filler[..], prefill, std::num::NonZeroUsize::new(1).unwrap()) {
-            Ok(got) => std::mem::forget(got),
+    // carry-over buffer = stream[..bl], as an AnchoredSlice from the same arena
+    let buf = if S.min(m) == 0 {
+        owning_iovec::AnchoredSlice::default()
+    } else {
+        let cap = if S < m { S } else { m };
+        match arena.read_n(&stream[..cap], cap, std::num::NonZeroUsize::new(1).unwrap()) {
+            Ok(mut got) => {
+                got.drop_suffix(cap - bl);
+                got
+            }
             Err(_) => {
                 assert!(false, "slice readers do not fail");
                 return;
             }
         }
-    }
-    let mut chunker = StreamChunker::default();
+    };
+    let mut chunker = StreamChunker::verif_from_parts(buf, base);
+    let mut reader = SchedReader::any(&stream[bl..len]);
 
-    let mut sum: usize = 0; // running sum of chunk sizes == absolute position
-    let mut prev_data_ended_in_fe = false;
-    let mut saw_eof = false;
-    let mut sentinels = 0usize;
-    let mut datas = 0usize;
-    let mut k = 0;
-    // every chunk covers at least one byte, so at most S chunks precede Eof
-    while k < S + 1 {
-        if !saw_eof {
-            let chunk = match chunker.pump(&mut arena, &mut reader, block) {
-                Ok(chunk) => chunk,
-                Err(_) => {
-                    // the stub only produces Interrupted, which read_n retries
-                    assert!(false, "pump must not fail: only interrupted calls are injected");
-                    return;
-                }
-            };
-            match chunk {
-                Chunk::Sentinel(off) => {
-                    assert_eq!(off as usize, sum + 2);
-                    assert!(sum + 2 <= len);
-                    assert!(stream[sum] == 0xFE && stream[sum + 1] == 0xFD);
-                    sum += 2;
-                    prev_data_ended_in_fe = false;
-                    sentinels += 1;
-                }
-                Chunk::Data((off, slice)) => {
-                    let s = slice.slice();
-                    assert!(!s.is_empty());
-                    assert_eq!(off as usize, sum + s.len());
-                    assert!(sum + s.len() <= len);
-                    // contents equal the stream (symbolic probe position)
-                    let j: usize = kani::any();
-                    if j < s.len() {
-                        assert_eq!(s[j], stream[sum + j]);
-                    }
-                    // no stuff sequence inside (symbolic probe pair)
-                    if j + 1 < s.len() {
-                        assert!(!(s[j] == 0xFE && s[j + 1] == 0xFD));
-                    }
-                    // nor straddling two consecutive Data chunks
-                    assert!(!(prev_data_ended_in_fe && s[0] == 0xFD));
-                    prev_data_ended_in_fe = s[s.len() - 1] == 0xFE;
-                    sum += s.len();
-                    datas += 1;
-                    std::mem::forget(slice);
-                }
-                Chunk::Eof => {
-                    // only at the real end of the stream
-                    assert_eq!(sum, len);
-                    assert!(reader.eof_reported);
-                    saw_eof = true;
+    let chunk = match chunker.pump(&mut arena, &mut reader, block) {
+        Ok(chunk) => chunk,
+        Err(_) => {
+            assert!(false, "pump must not fail: only interrupted calls are injected");
+            return;
+        }
+    };
+    // emitted bytes of this step, in logical coordinates
+    let emitted: usize;
+    match chunk {
+        Chunk::Sentinel(off) => {
+            assert!(len >= 2 && stream[0] == 0xFE && stream[1] == 0xFD);
+            assert_eq!(off, base + 2);
+            emitted = 2;
+        }
+        Chunk::Data((off, slice)) => {
+            let s = slice.slice();
+            assert!(!s.is_empty());
+            assert!(s.len() <= len);
+            assert_eq!(off, base + s.len() as u64);
+            let j: usize = kani::any();
+            if j < s.len() {
+                assert_eq!(s[j], stream[j]);
+                // no stuff sequence inside
+                if j >= 1 {
+                    assert!(!(s[j - 1] == 0xFE && s[j] == 0xFD));
                 }
             }
-        }
-        k += 1;
-    }
-    // the loop bound is enough to reach Eof for every stream within the bound
-    if !saw_eof {
-        let last = chunker.pump(&mut arena, &mut reader, block);
-        match last {
-            Ok(Chunk::Eof) => {
-                assert_eq!(sum, len);
-                saw_eof = true;
+            // no stuff sequence straddling this chunk and whatever comes next
+            if s[s.len() - 1] == 0xFE && s.len() < len {
+                assert!(stream[s.len()] != 0xFD);
             }
-            _ => assert!(false, "more chunks than bytes"),
+            // a sentinel at the front is never hidden inside a data chunk
+            assert!(!(len >= 2 && stream[0] == 0xFE && stream[1] == 0xFD));
+            emitted = s.len();
+            kani::cover!(s.len() >= 2 && s.len() < len && stream[s.len()] == 0xFE, "data split right before a held-back FE");
+            kani::cover!(s[s.len() - 1] == 0xFE, "data chunk ending in FE (no FD follows)");
+            std::mem::forget(slice);
+        }
+        Chunk::Eof => {
+            // only at the real end of the stream
+            assert!(len == 0);
+            assert!(reader.eof_reported);
+            emitted = 0;
         }
     }
-    assert!(saw_eof);
-    // reads are requested in blocks: never more than max(block, 2) at a time
-    let bound = if block < 2 { 2 } else { block };
-    assert!(reader.max_asked <= bound);
+    // post-state satisfies the invariant
+    let nb = chunker.verif_buf();
+    assert_eq!(chunker.verif_offset(), base + emitted as u64);
+    assert!(nb.len() <= m);
+    assert!(emitted + nb.len() <= len);
+    assert_eq!(bl + reader.pos, emitted + nb.len());
+    let j: usize = kani::any();
+    if j < nb.len() {
+        assert_eq!(nb[j], stream[emitted + j]);
+    }
+    // I/O happens in blocks
+    assert!(reader.max_asked <= m);
 
-    kani::cover!(sentinels >= 1 && datas >= 2, "data, sentinel, data");
-    kani::cover!(sentinels >= 2, "two sentinels");
-    kani::cover!(len == S && sentinels == 0 && datas >= 2, "sentinel-free stream split into several data chunks");
-    kani::cover!(len >= 2 && stream[len - 1] == 0xFE && sentinels == 0, "stream ends in a lone FE");
+    kani::cover!(bl == 1 && stream[0] == 0xFE && len >= 2 && stream[1] == 0xFD, "carried FE completed by FD from the reader");
+    kani::cover!(bl == 0 && len == 0, "end of stream");
+    kani::cover!(bl == m && emitted > 0, "full carry-over buffer");
+    kani::cover!(reader.calls >= 3, "short reads and an interrupted call");
     std::mem::forget(chunker);
     std::mem::forget(arena);
     if witness {
@@ -114,29 +120,27 @@ fn tiling<const S: usize>(block: usize, sched: bool, prefill: usize, witness: bo
     }
 }
 
-macro_rules! tiling_proofs {
-    ($($name:ident = ($s:expr, $block:expr, $sched:expr, $prefill:expr, $w:expr);)*) => {
+macro_rules! step_proofs {
+    ($($name:ident = ($s:expr, $block:expr, $w:expr);)*) => {
         $(
             #[kani::proof]
             #[kani::unwind(10)]
             fn $name() {
-                tiling::<$s>($block, $sched, $prefill, $w)
+                step::<$s>($block, $w)
             }
         )*
     };
 }
 
-tiling_proofs! {
-    c08_s4_b0 = (4, 0, true, 0, false);
-    c08_s4_b1 = (4, 1, true, 0, false);
-    c08_s4_b2 = (4, 2, true, 0, false);
-    c08_s4_b3 = (4, 3, true, 0, false);
-    c08_s4_b4 = (4, 4, true, 0, false);
-    c08_s4_b3_witness = (4, 3, true, 0, true);
-    c08_s4_b3_prefill7 = (4, 3, true, 7, false);
-    c08_s6_b2 = (6, 2, true, 0, false);
-    c08_s6_b3 = (6, 3, true, 0, false);
-    c08_s6_b4 = (6, 4, true, 0, false);
-    c08_s6_b5 = (6, 5, true, 0, false);
-    c08_s6_b8_full = (6, 8, false, 0, false);
+step_proofs! {
+    c08_step_s4_b0 = (4, 0, false);
+    c08_step_s4_b1 = (4, 1, false);
+    c08_step_s4_b2 = (4, 2, false);
+    c08_step_s5_b3 = (5, 3, false);
+    c08_step_s5_b3_witness = (5, 3, true);
+    c08_step_s6_b4 = (6, 4, false);
+    c08_step_s6_b2 = (6, 2, false);
+    c08_step_s6_b3 = (6, 3, false);
+    c08_step_s8_b5 = (8, 5, false);
+    c08_step_s8_b6 = (8, 6, false);
 }
